@@ -88,7 +88,8 @@ def boundary(t, f, callee_f, level, nlevel):
     if nlevel == level + 1 and (t.get('callee') or '').endswith('Stream::poll_next') and 'requests_per_channel' in f.id:
         return ('I', 'poll_next')
     # the limiter's own reply: its call to a Sink::start_send impl from its stream body
-    if (t.get('callee') or '').endswith('Sink::start_send') and 'requests_per_channel' in f.id and f.impl_of and (f.impl_of.get('trait') or '').endswith('Stream'):
+    if (t.get('callee') or '').endswith('Sink::start_send') and 'requests_per_channel' in f.id and nlevel == level \
+            and not (f.impl_of and (f.impl_of.get('trait') or '').split('<')[0].endswith('Sink')):
         return ('S', 'start_send')
     return None
 
@@ -144,14 +145,15 @@ def run(ctx):
              'the inner poll_next may retire requests (Cancel message, expiry, guard queue) before yielding the request that is then refused')
 
     # ------------------------------------------------------------------ reply content (E-PROV)
-    sends = [(bb, t) for bb, t in mr.calls() if callee_is(t, 'Sink::start_send')]
-    R.ob('C12.content', ('MaxRequests::poll_next', 'one reply site'), len(sends) == 1, 'the limiter writes at one site', [mr.loc(t) for _, t in sends] or [mr.loc(mr.d)])
-    for bb, t in sends:
-        rr = [r for r, _ in P.root(P.operand(mr, t['args'][1], at=bb))]
+    sends = [(g, bb, t) for g in reachable_local_fns(F, mr, depth=2) for bb, t in g.calls() if callee_is(t, 'Sink::start_send')
+             and 'requests_per_channel' in g.id and not (g.impl_of and (g.impl_of.get('trait') or '').split('<')[0].endswith('Sink'))]
+    R.ob('C12.content', ('MaxRequests::poll_next', 'one reply site'), len(sends) == 1, 'the limiter writes at one site', [g.loc(t) for g, _, t in sends] or [mr.loc(mr.d)])
+    for g_, bb, t in sends:
+        rr = [r for r, _ in P.root(P.operand(g_, t['args'][1], at=bb), through_params=True)]
         ok = len(rr) == 1 and rr[0][0] == 'agg' and path_matches(P._agg_rv(rr[0])['adt'], 'Response')
         det = ''
         if ok:
-            idr = P.root(P._field(rr[0], 'request_id'))
+            idr = P.root(P._field(rr[0], 'request_id'), through_params=True)
             ok_id = bool(idr) and all(P.is_call(r, 'Stream::poll_next') and P.fpath(p)[-2:] == ('request', 'id') for r, p in idr)
             msg = P.root(P._field(rr[0], 'message'))
             ok_msg = False
@@ -165,4 +167,4 @@ def run(ctx):
             ok = ok_id and ok_msg
             det = 'id: %s; message ok: %s' % ([P.describe(r) + str(list(norm_path(p))) for r, p in idr], ok_msg)
         R.ob('C12.content', ('MaxRequests::poll_next', 'reply names the refused request and says throttled'), ok,
-             'the reply is Response{request_id: <id of the request just read>, message: Err(ServerError{kind: WouldBlock, ..})}', [mr.loc(t)], det)
+             'the reply is Response{request_id: <id of the request just read>, message: Err(ServerError{kind: WouldBlock, ..})}', [g_.loc(t)], det)
